@@ -176,7 +176,7 @@ func explore(t *testing.T, r *ev.Run, prop string, cs []cell, domains map[string
 
 func TestC02(t *testing.T) {
 	r := ev.Start("C02", "fault_enumeration")
-	r.Rule("for each cell (10 key states x {simple cache, no cache, lru cap-1 shared} x {encrypt, decrypt}) a clean run records the trace of metastore and KMS calls of the operation under test; then EVERY call index gets every fault kind valid for it (Load/LoadLatest: error; Store: error-without-write, false-without-write, write-then-error, write-then-false; KMS: error) and, depth-first, every second fault at every later call of the faulted run (and, thorough tier, a seeded 35% sample of third faults). After each execution: record/err shape, IK row and SK row present in the raw store, a brand-new cache-less factory (crash model) decrypts the record, and once faults stop the next encrypt and the earlier records work on the same session. The enumeration is repeated (single faults, sampled pairs) over region-suffixed key ids and over both DynamoDB plug-ins on the semantic fake. Distinct+non-trivial: (cell, fault plan) pairs in which a fault actually fired.")
+	r.Rule("for each cell (10 key states x {simple cache, no cache, lru cap-1 shared} x {encrypt, decrypt}) a clean run records the trace of metastore and KMS calls of the operation under test; then EVERY call index gets every fault kind valid for it (Load/LoadLatest: error; Store: error-without-write, false-without-write, write-then-error, write-then-false; KMS: error) and, depth-first, every second fault at every later call of the faulted run (and, thorough tier, a seeded 35% sample of third faults). After each execution: record/err shape, IK row and SK row present in the raw store, a brand-new cache-less factory (crash model) decrypts the record, and once faults stop the next encrypt and the earlier records work on the same session. The enumeration is repeated (single faults, sampled pairs) over region-suffixed key ids, over the DynamoDB and SQL plug-ins on their fakes, and with both AWS KMS plug-ins over a fake two-region cloud (the crash-model process then prefers the other region and finds the first one unreachable). Distinct+non-trivial: (cell, fault plan) pairs in which a fault actually fired.")
 	r.Assume("virtual clock (testing/synctest) fixes creation stamps", "a crash is modelled by discarding the factory and reading only the metastore and the KMS", "partial writes inside a real database are out of reach")
 	cs := cells(ev.Pick([]string{"simple", "nocache", "lru1-shared"}, []string{"simple", "nocache", "lru1-shared", "sesscache"}), []string{"enc", "dec"})
 	explore(t, r, "C02", cs, map[string]bool{"ms": true, "kms": true, "aead": true}, ev.Pick(30, 100))
@@ -188,6 +188,14 @@ func TestC02(t *testing.T) {
 		r.Count("passes_over_"+v[0]+"_suffix_"+v[1], 1)
 	}
 	execBackend, execSuffix = "memory", ""
+	// ... and with the AWS KMS plug-ins (two regions) as the KMS: the crash-model process prefers the other region
+	// and finds the first one unreachable
+	for _, v := range []int{1, 2} {
+		execAWSKMS = v
+		explore(t, r, "C02", cells([]string{"simple", "nocache"}, []string{"enc"}), map[string]bool{"ms": true, "kms": true}, ev.Pick(4, 40))
+		r.Count(fmt.Sprintf("passes_over_aws_kms_v%d", v), 1)
+	}
+	execAWSKMS = 0
 	// "returned 'already exists'": key inserts of several cold processes that really overlap inside the metastore
 	creators.Run(r, "C02", ev.Pick(30, 600), journal)
 	r.Finish(t)
